@@ -506,9 +506,7 @@ def check_C03(A, R, tier):
             R.ob("R3.3", "%s | 'validated' is answered only with %s" % (short(b.name), name), ok)
         R.floor("R3.3", "upstream states for which the dependency check is consulted", sum(1 for v in res["consulted"].values() if v), 5)
     # R3.5: a job of a kind without cleanup is skipped only under the 'validated' verdict
-    sc = [b for b in A.evaluator_methods() if b.name in set(v["fn"] for (k, s), run in H.items() if k == K["consider"]
-                                                           for v in run.by_kind("push_signal")
-                                                           if sk in v["kinds"] and v["container"] != "queue" and is_role(v["key"], "sigtarget"))]
+    sc = [A.facts.body(n) for n in sorted(consider_entry_fns(A, sk))]
     for b in sc:
         for uvb in uvs:
             for verdict in A.uni.fin[vt]:
@@ -665,6 +663,26 @@ def verdict_loop(A, b, ei_names, vt, validated):
     return res
 
 
+def consider_entry_fns(A, sk):
+    """the function(s) the consider handler calls directly and below which the skip signal is emitted"""
+    K = kinds(A)
+    H = A.handler_runs()
+    sp = A.signal_processor()
+    out = set()
+    for (k, s), run in H.items():
+        if k != K["consider"]:
+            continue
+        for v in run.by_kind("push_signal"):
+            if sk in v["kinds"] and v["container"] != "queue" and is_role(v["key"], "sigtarget"):
+                ch = run.chain(v)
+                # ch[0] is the processor itself; the next activation is the consider logic's entry
+                if len(ch) >= 2 and ch[0][1] == sp.name:
+                    out.add(ch[1][1])
+                else:
+                    out.add(v["fn"])
+    return out
+
+
 def validation_ty(A):
     for p, a in A.facts.adts.items():
         if a["enum"] and p in A.uni.fin and p != A.L.jobstate:
@@ -693,8 +711,7 @@ def validated_verdict(A, sk):
     cleanup_kinds = set(A.kind_of(s) for s in C["CleanupOffered"])
     uvs = [b for b in A.evaluator_methods() if b.locals[0]["s"].startswith("std::result::Result<%s" % vt)]
     H = A.handler_runs()
-    fns = set(v["fn"] for (k, s), run in H.items() if k == K["consider"] for v in run.by_kind("push_signal")
-              if sk in v["kinds"] and v["container"] != "queue" and is_role(v["key"], "sigtarget"))
+    fns = consider_entry_fns(A, sk)
     res = None
     for fnn in fns:
         b = A.facts.body(fnn)
@@ -759,20 +776,26 @@ def rule_history_after_any_outcome(A, R, rule):
 def continues(A, run):
     """does the signal loop get past the handled signal (back edge taken), i.e. the handler did not reject it?"""
     sp = A.signal_processor()
-    heads = [blk["i"] for blk in sp.blocks if not blk["cleanup"] and blk["term"]["t"]["k"] == "call"
-             and (M.callee_name(blk["term"]["t"]) or "").endswith("Drain<'_, T, A> as std::iter::Iterator>::next")]
-    if len(heads) != 1:
-        raise Imprecision("cannot find the drain loop of the signal processor")
-    h = heads[0]
-    loop = sp.natural_loop(h)
-    fid = None
+    # the loop that hands out the signals: the binding block of a signal-target key in the processor's own activation
+    idx = run._index()
+    fid0 = idx.get((sp.name, ()))
+    heads = set()
     for k, v in run.facts.items():
-        if v.get("fn") == sp.name and not v.get("stack"):
-            fid = v["fid"]
-            break
-    if fid is None:
-        fid = 0
-    es = run.edges.get(fid, set())
+        ki = v.get("key") if isinstance(v, dict) else None
+        if isinstance(ki, tuple) and len(ki) == 2 and isinstance(ki[0], tuple) and ki[0][:2] == ("b", fid0) and is_role(ki, "sigtarget"):
+            heads.add(ki[0][2])
+    if not heads:
+        # nothing recorded for the target: fall back to the iterator step that yields Signal values
+        for blk in sp.blocks:
+            t = blk["term"]["t"]
+            if not blk["cleanup"] and t["k"] == "call" and (M.callee_name(t) or "").endswith("::next") and not t["dest"]["p"] \
+                    and A.L.signal_ty in sp.locals[t["dest"]["l"]]["s"]:
+                heads.add(blk["i"])
+    if len(heads) != 1:
+        raise Imprecision("cannot find the loop that hands out the signals (%r)" % sorted(heads))
+    h = list(heads)[0]
+    loop = sp.natural_loop(h)
+    es = run.edges.get(fid0, set())
     return any(b == h and a in loop and a != h for (a, b) in es)
 
 
@@ -921,7 +944,7 @@ def check_C06(A, R, tier):
                     continue
                 n += 1
                 cancels = [x for x in run.by_kind("set_op") if x["op"] == "insert" and x["target"][0] == "local" and x["elem"][0] == "key"
-                           and x["elem"][1] == v["key"][0] and connected(A, dict(v, key=v["key"]), x) and x["fid"] == v["fid"]]
+                           and x["elem"][1] == v["key"][0] and connected(A, v, x)]
                 retains = [x for x in run.by_kind("retain") if x["fid"] == v["fid"] or True]
                 R.ob("R6.6", "%s | consider handler from %s emits %s | pending consider signals for the job are cancelled (a second %s would be rejected)"
                      % (short(v["fn"]), A.sname(s), A.kname(k2), A.kname(k2)), bool(cancels) and bool(retains),
